@@ -61,6 +61,10 @@ def is_decoder(fn):
 
 def run(ctx):
     P = ctx.P
+    ctx.clause("C08.11 what a decoding loop reads through a pointer cursor it steps over before its next iteration")
+    from ..rules import loopcursor
+    nlc = loopcursor.check(ctx, [f for f in P.lib_functions() if P.rel(f.file).startswith(("src/encoding/", "src/compression/", "src/thrift/", "src/core/", "src/reader/"))])
+    ctx.floor("C08 reads through a loop's pointer cursor", nlc, 20)
     ctx.clause("C08.10 an indexed read from a table whose size was validated as count * K stays inside it: read width <= stride <= K (the dictionary decoders)")
     from ..rules import scaledext
     nse = scaledext.check(ctx, [f for f in P.lib_functions() if P.rel(f.file).startswith("src/")])
